@@ -2,8 +2,10 @@ SPECIFICATION Spec
 CONSTANTS
   MaxLines = 8
   MaxLive = 3
-  UseImpl = FALSE
-  EqualKinds = FALSE
+  UseImpl = TRUE
+  EqualKinds = TRUE
+INVARIANT ImplNeverRaises
+INVARIANT ImplIsReference
 INVARIANT NeverStuck
 INVARIANT EndsClosed
 INVARIANT SameGoverning
